@@ -1405,16 +1405,16 @@ func conv(t_dst, t_src types.Type, x value) value {
 				}
 				return string(r)
 			}
-			out := make([]value, len(x))
+			out := make([]value, 0, len(x))
 			for i := range x {
 				asciiOnly(x[i], "rune in []rune->string")
 				if sr, ok := x[i].(sym); ok {
-					out[i] = symConvScalar(types.Uint8, sr)
+					out = append(out, symConvScalar(types.Uint8, sr))
 				} else {
-					if x[i].(rune) >= 0x80 || x[i].(rune) < 0 {
-						panic(pathEnd{"unsupported", "non-ASCII rune next to symbolic runes in []rune->string"})
+					// a concrete rune contributes its UTF-8 encoding
+					for _, b := range []byte(string(x[i].(rune))) {
+						out = append(out, b)
 					}
-					out[i] = uint8(x[i].(rune))
 				}
 			}
 			return normStr(out)
